@@ -294,6 +294,51 @@ def huge_trees():
     return [("ZV", (("items", tuple([L, F_] * 150)),)), ("ZU", (("c", ("ZV", (("items", tuple([L] * 259 + [("ZO", (("c", L),))])),))),))]
 
 
+DEEP = 3000
+
+
+def check_deep_chain(rec: Rec):
+    """A tree 3000 levels deep (three times the interpreter's default recursion limit): the traversals are specified for
+    every tree, and a chain has exactly one order."""
+    zoo.reset_registry()
+    root, nodes = zoo.deep_chain(DEEP)
+    exp = [id(n) for n in nodes[1:]]
+    case = {"tree": f"chain of depth {DEEP}", "share": None, "route": "deep-chain"}
+    mid = nodes[DEEP // 2]
+    runs = {
+        "dfs": (lambda: root.dfs(), exp),
+        "dfs-bu": (lambda: root.dfs(bottom_up=True), exp[::-1]),
+        "bfs": (lambda: root.bfs(), exp),
+        "dfs-pruned": (lambda: root.dfs(prune=FalsyPredicate(lambda i: i.node is mid)), exp[: DEEP // 2]),
+        "bfs-pruned": (lambda: root.bfs(prune=FalsyPredicate(lambda i: i.node is mid)), exp[: DEEP // 2]),
+        "dfs-bu-filtered": (lambda: root.dfs(filter=FalsyPredicate(lambda i: isinstance(i.node, zoo.ZO)), bottom_up=True),
+                            [id(n) for n in reversed(nodes[1:]) if isinstance(n, zoo.ZO)]),
+    }
+    for name, (mkgen, e) in runs.items():
+        rec.count("transitions"); rec.count("traces"); rec.count("evaluations"); rec.count("states")
+        try:
+            got = []
+            for info in mkgen():
+                got.append(id(info.node))
+                if getattr(info.parent, info.field.name) is not info.node or info.findex is not None:
+                    rec.violation("C05|deep-chain|position-info", dict(case, traversal=name), "yielded (node, parent, field, index) does not address the node")
+                    break
+        except RecursionError:
+            rec.violation("C05|deep-chain|recursion", dict(case, traversal=name), f"{name} on a chain of depth {DEEP} raised RecursionError")
+            continue
+        if got != e:
+            rec.violation("C05|deep-chain|sequence", dict(case, traversal=name), f"{name}: {len(got)} positions yielded, {len(e)} expected (or another order)")
+        rec.outcome(f"deep:{name}")
+    rec.count("transitions"); rec.count("traces"); rec.count("evaluations")
+    try:
+        g = list(root.gather(zoo.ZL)), list(root.gather((zoo.ZU, zoo.ZL), exact_type=True))
+        if [id(x) for x in g[0]] != [exp[-1]] or [id(x) for x in g[1]] != [id(n) for n in nodes[1:] if type(n) in (zoo.ZU, zoo.ZL)]:
+            rec.violation("C05|deep-chain|sequence", dict(case, traversal="gather"), "gather on a deep chain differs from the restricted pre-order stream")
+    except RecursionError:
+        rec.violation("C05|deep-chain|recursion", dict(case, traversal="gather"), f"gather on a chain of depth {DEEP} raised RecursionError")
+    del root, nodes
+
+
 def run_shard(cfg):
     rec = Rec(cfg)
     # configuration dimension: every third shard runs with runtime type checking on (all inputs are well typed,
@@ -312,6 +357,8 @@ def run_shard(cfg):
             rec.rank = 10**9 + j
             rec.count("big_trees")
             check_tree(U, d, None, rec, light=False)
+    if cfg["k"] == 11 % cfg["of"]:
+        check_deep_chain(rec)
     for j, d in enumerate(huge_trees()):
         if (j + 7) % cfg["of"] == cfg["k"]:
             rec.rank = 2 * 10**9 + j
@@ -341,5 +388,8 @@ def replay(case, cfg):
     share = None
     if case.get("share"):
         share = {tuple(tuple(s) for s in k): tuple(tuple(s) for s in v) for k, v in case["share"]}
+    if case.get("route") == "deep-chain":
+        check_deep_chain(rec)
+        return rec.result()["violations"]
     check_tree(U, case["tree"], share, rec, route=case.get("route", "direct"))
     return rec.result()["violations"]
